@@ -121,6 +121,9 @@ type Table struct {
 	// parenthesised list (SQLite stores the statement text as typed)
 	Comment   string `json:",omitempty"`
 	CommentAt int    `json:",omitempty"`
+	// Strict: the STRICT table option (SQLite 3.37+), written before (1) or
+	// after (2) WITHOUT ROWID when the table has both
+	Strict int `json:",omitempty"`
 }
 
 var comments = []string{"--1\n", "-- a note\n", "/* x */", "/* - 1 */", "--\n", "/**/", "/* ' */", "-- \"q\n", "/* a, b */", "--,\n",
@@ -151,8 +154,18 @@ func (tb Table) SQL() string {
 	parts = append(parts, tb.Cons...)
 	parts = withComment(parts, tb.Comment, tb.CommentAt)
 	s := "CREATE TABLE " + tb.Ident.SQL + " (" + strings.Join(parts, ", ") + ")"
+	var opts []string
 	if tb.WithoutRowid {
-		s += " WITHOUT ROWID"
+		opts = append(opts, "WITHOUT ROWID")
+	}
+	switch tb.Strict {
+	case 1:
+		opts = append([]string{"STRICT"}, opts...)
+	case 2:
+		opts = append(opts, "strict")
+	}
+	if len(opts) > 0 {
+		s += " " + strings.Join(opts, ", ")
 	}
 	return s
 }
@@ -427,6 +440,15 @@ func GenTable(t *rapid.T, name Ident, o Opts) Table {
 	}
 	if len(tb.Cons) > 1 && rapid.Bool().Draw(t, "tcshuffle") {
 		tb.Cons = rapid.Permutation(tb.Cons).Draw(t, "tcorder")
+	}
+	if rapid.IntRange(0, 14).Draw(t, "strict") == 0 {
+		// a STRICT table: only these type names are allowed there
+		tb.Strict = rapid.IntRange(1, 2).Draw(t, "strictpos")
+		for i := range tb.Cols {
+			if !tb.Cols[i].Generated() {
+				tb.Cols[i].Type = rapid.SampledFrom([]string{"INT", "INTEGER", "REAL", "TEXT", "BLOB", "ANY", "integer", "Text"}).Draw(t, "stricttype")
+			}
+		}
 	}
 	if rapid.IntRange(0, 11).Draw(t, "tcomment") == 0 {
 		tb.Comment = rapid.SampledFrom(comments).Draw(t, "tcommenttext")
